@@ -123,12 +123,16 @@ def build_sky(spec, c, scale):
     import astropy.units as u
     import regions as R
     cls = spec['cls']
-    q = lambda name: spec[name] * scale * u.deg      # noqa
+    # every size is handed over in its own angular unit (the same angle, converted by astropy): a conversion that
+    # reads all sizes in the unit of the first one would be invisible if they all shared a unit
+    UN = {'radius': u.arcsec, 'inner_radius': u.arcmin, 'outer_radius': u.arcsec, 'width': u.arcsec, 'height': u.arcmin,
+          'inner_width': u.arcsec, 'outer_width': u.deg, 'inner_height': u.arcmin, 'outer_height': u.mas}
+    q = lambda name: (spec[name] * scale * u.deg).to(UN[name])      # noqa
     if cls == 'circle':
         return R.CircleSkyRegion(c, q('radius'))
     if cls == 'circleannulus':
         return R.CircleAnnulusSkyRegion(c, q('inner_radius'), q('outer_radius'))
-    ang = spec['angle'] * u.deg
+    ang = (spec['angle'] * u.deg).to(u.arcmin) if cls in ('rectangle', 'rectangleannulus') else spec['angle'] * u.deg
     if cls == 'ellipse':
         return R.EllipseSkyRegion(c, q('width'), q('height'), angle=ang)
     if cls == 'rectangle':
@@ -175,6 +179,14 @@ def check_config(res, spec, off, ws):
     res.evaluations += 1
     res.states += 1
     w = W.make_wcs(ws)
+    import zlib as _zlib
+    wcs_route = 'fresh'
+    if _zlib.crc32(repr((sorted(spec.items()), list(off), sorted(ws.items(), key=str))).encode()) % 5 == 0:
+        # the WCS *object* has a history: it described another rotation/scale when a region at the same sky
+        # position was converted with it, and was then changed in place to the configuration under test
+        import copy as _copy
+        w = _copy.deepcopy(w)
+        wcs_route = 'modified_in_place'
     scale = ws['scale']
     px, py = W.REFPIX[0] + off[0], W.REFPIX[1] + off[1]
     c = W.to_world(w, px, py)
@@ -193,6 +205,21 @@ def check_config(res, spec, off, ws):
         res.nontriv((spec, list(off), ws))
 
     sky = build_sky(spec, c, scale)
+    if wcs_route == 'modified_in_place':
+        keep_pc, keep_cdelt = w.wcs.pc.copy(), w.wcs.cdelt.copy()
+        t = math.radians(ws['rot'] + 47.0)
+        w.wcs.pc = [[math.cos(t), -math.sin(t)], [math.sin(t), math.cos(t)]]
+        w.wcs.cdelt = keep_cdelt * 1.9
+        w.wcs.set()
+        try:
+            with warnings.catch_warnings():
+                warnings.simplefilter('ignore')
+                sky.to_pixel(w)
+        except Exception:
+            pass
+        w.wcs.pc = keep_pc
+        w.wcs.cdelt = keep_cdelt
+        w.wcs.set()
     res.transitions += 1
     try:
         with warnings.catch_warnings():
